@@ -75,6 +75,8 @@ type frame struct {
 	vals      map[ssa.Value]TV
 	lvs       map[ssa.Value]*LV
 	depth     int
+	cancellable  bool
+	cancelFields []string
 	contract  *FuncC
 	top       bool
 	loops     map[*ssa.BasicBlock]*loopInfo
